@@ -94,6 +94,10 @@ def classify(sess_cfg, pending, label):
     if not pending.get("ok"):
         return UNKNOWN
     if label.get("pdu") not in ("response", "report"):
+        # a request-type PDU: with a foreign request-id it is a well-formed message that fails
+        # the test (skipped); with the outstanding id the statement leaves the outcome open
+        if label.get("pdu") in ("get", "getnext", "getbulk") and pending.get("request_id") is not None and label.get("request_id") != pending["request_id"]:
+            return SKIP
         return UNKNOWN
     if ver != 3:
         if bytes.fromhex(label["community"]) != pending["m"]["community"]:
